@@ -185,16 +185,21 @@ def r20_backend_name(ctx):
         (None, 'K', {'MIDO_BACKEND': 'other'}, ('other', 'K')),
     ]
     for bname, api, env, (wn, wa) in cases:
+      for use_env in (None, True, False):
+        # (use_environ is about the MIDO_DEFAULT_* port names; which backend module MIDO_BACKEND names does not depend on it)
         for load in (False, True):
             ai = make_interp(ctx, env, True, True)
             holder = {}
 
             def thunk():
-                b = ai.apply(ClassRef(cls), [], {'name': bname, 'api': api, 'load': load}, None)
+                kw = {'name': bname, 'api': api, 'load': load}
+                if use_env is not None:
+                    kw['use_environ'] = use_env
+                b = ai.apply(ClassRef(cls), [], kw, None)
                 holder['b'] = b
                 return b
             outs = ai.explore(thunk)
-            cfg = f'Backend(name={bname!r}, api={api!r}, load={load}) env={env}'
+            cfg = f'Backend(name={bname!r}, api={api!r}, load={load}{"" if use_env is None else ", use_environ=%r" % use_env}) env={env}'
             ok = len(outs) == 1 and outs[0].kind == 'return' and holder['b'].attrs.get('name') == wn and holder['b'].attrs.get('api') == wa
             ctx.require(ok, 'R20.4', cfg, w, f'name/api = {holder["b"].attrs.get("name")!r}/{holder["b"].attrs.get("api")!r}, expected {wn!r}/{wa!r}: {outs}',
                         construct=f'{init.qname}::name-api-split')
@@ -313,6 +318,17 @@ def r20_set_backend(ctx):
         ctx.require(not bad, 'R20.6', f'{cfg}.rebinding', w, f'top level functions not rebound to the chosen backend: {bad}', construct=f'{sb.qname}::rebinding')
         ctx.require(ai.state['imports'] == [], 'R20.1', f'{cfg}.lazy', w, f'set_backend imports {ai.state["imports"]} although load=False',
                     construct=f'{sb.qname}::lazy')
+    # load=True: the backend is made from the name as with load=False - name and API as given - and its module is imported
+    # now, once (the flag must reach the parameter it is meant for: Backend(name, api, load, use_environ))
+    for arg, wn, wa in (('mod/APIX', 'mod', 'APIX'), ('mod', 'mod', None)):
+        ai = make_interp(ctx, {}, True, True)
+        outs = ai.explore(lambda: (ai.call_function(sb, [], {'name': arg, 'load': True}), ai.module_globals.get('mido'))[1])
+        cfg = f'set_backend({arg!r}, load=True)'
+        g = outs[0].value.d if len(outs) == 1 and outs[0].kind == 'return' and isinstance(outs[0].value, ADict) else None
+        b = g.get('backend') if g is not None else None
+        ok = isinstance(b, AObj) and b.attrs.get('name') == wn and b.attrs.get('api') == wa and ai.state['imports'] == [wn]
+        ctx.require(ok, 'R20.6', cfg, w, f'mido.backend is {b!r}, imports made: {ai.state["imports"]}; expected name {wn!r}, api {wa!r} and exactly '
+                    f'the import of {wn!r}: {"" if g is not None else outs}', construct=f'{sb.qname}::load-flag')
     # called once at import; no backend module imported at package import
     called = [s for s in m.tree.body if isinstance(s, ast.Expr) and isinstance(s.value, ast.Call) and unparse(s.value.func) == 'set_backend']
     ctx.require(len(called) == 1 and not called[0].value.args and not called[0].value.keywords, 'R20.6', 'set_backend() at import', w,
